@@ -17,7 +17,7 @@ M = [
  ("c07_subband_nozero", "C07", "sigpyproc/base.py", "            out_ar.fill(0)\n", "", "sub-band accumulator not cleared between blocks"),
  ("c08_int_trunc", "C08", "sigpyproc/readers.py", "        chan_start = round((fch1 - self.header.fch1) / self.header.foff)\n        if chan_start < 0 or chan_start + nchans > self.header.nchans:\n            msg = f\"requested block is out of range: fch1={fch1}, nchans={nchans}\"\n            raise ValueError(msg)\n        if start < 0 or start + nsamps > self.header.nsamples:\n            msg = f\"requested block is out of range: start={start}, nsamps={nsamps}\"\n            raise ValueError(msg)\n\n        self._file.seek", "        chan_start = int((fch1 - self.header.fch1) / self.header.foff)\n        if chan_start < 0 or chan_start + nchans > self.header.nchans:\n            msg = f\"requested block is out of range: fch1={fch1}, nchans={nchans}\"\n            raise ValueError(msg)\n        if start < 0 or start + nsamps > self.header.nsamples:\n            msg = f\"requested block is out of range: start={start}, nsamps={nsamps}\"\n            raise ValueError(msg)\n\n        self._file.seek", "read_block truncates the channel index"),
  ("c09_valid_sign", "C09", "sigpyproc/block.py", "new_ar = kernels.roll_block_valid(self.data, -delays)", "new_ar = kernels.roll_block_valid(self.data, delays)", "valid-samples dedispersion rolls the wrong way"),
- ("c10_merge_m3", "C10", "sigpyproc/core/kernels.py", "        * (a[\"count\"] - b[\"count\"])\n        / (c[\"count\"] ** 2)", "        * (b[\"count\"] - a[\"count\"])\n        / (c[\"count\"] ** 2)", "third-moment merge term has the wrong sign"),
+ ("c10_merge_m3", "C10", "sigpyproc/core/kernels.py", "delta3 * na * nb * (na - nb) / (nc**2)", "delta3 * na * nb * (nb - na) / (nc**2)", "third-moment merge term has the wrong sign"),
  ("c11_fold_index", "C11", "sigpyproc/base.py", "                nints,\n                nbands,\n                ii * (gulp - max_delay),\n            )", "                nints,\n                nbands,\n                ii * gulp,\n            )", "fold passes the wrong absolute sample index for blocks after the first when DM > 0"),
  ("c12_goodsize", "C12", "sigpyproc/core/kernels.py", "    n_good = nb_fft_good_size(n, real=True)\n    sp1 = np.fft.rfft(in1, n_good)", "    n_good = nb_fft_good_size(max(n1, n2), real=True)\n    sp1 = np.fft.rfft(in1, n_good)", "fftconvolve pads to the longer input only: circular wrap-around"),
  ("c13_no_reverse", "C13", "sigpyproc/core/kernels.py", "        temp_pad = np.roll(temp_pad[::-1], 1)\n", "", "matched filter convolves instead of correlating (no time reversal)"),
